@@ -27,6 +27,9 @@ pub fn check(tier: Tier) -> Check {
         Part::new("C01/length-sweep", json!({"big": t}), 0, tier.pick(60, 600)),
         Part::new("C01/fragmentation", json!({}), tier.pick(3, 4), tier.pick(40, 600)),
         Part::new("C01/fragmentation-uniform", json!({}), 0, 60),
+        Part::new("C01/fragmentation-uniform", json!({"flavour": 3}), 0, 60),
+        Part::new("C01/fragmentation-uniform", json!({"flavour": 4}), 0, 60),
+        Part::new("C01/fragmentation", json!({"flavour": 4}), 1, tier.pick(40, 600)),
     ];
     Check {
         also_rel: false,
@@ -628,8 +631,17 @@ pub fn scenario(name: &str, params: &Value) -> Scenario {
                 } else {
                     WriteMode::Explore
                 };
-                sys.set_write_mode(mode);
-                sys.bring_up(vec![]);
+                // (params.flavour 3 / 4: the session runs on the second connection of a Context whose
+                // first one broke inside an inbound packet / while an acknowledgement was being written:
+                // the new wire starts with the new CONNECT and carries nothing left over)
+                let fl = params["flavour"].as_u64().unwrap_or(0);
+                if fl == 0 {
+                    sys.set_write_mode(mode);
+                }
+                sys.bring_up_fl(vec![], fl);
+                if fl != 0 {
+                    sys.set_write_mode(mode);
+                }
                 let mut p = PublishSpec::simple(1, "frag/topic", b"fragmented payload");
                 p.user_props = vec![("k".into(), "v".into())];
                 sys.apply(Ev::Start(OpSpec::Publish(p)));
